@@ -802,12 +802,13 @@ class Inter:
     call sites (receiver `self`) of the caller's worlds restricted to `self` keys;
     `entries` start from TOP."""
 
-    def __init__(self, prog, mods, fns, entries, track, carry=None):
+    def __init__(self, prog, mods, fns, entries, track, carry=None, user_stop=False):
         self.prog = prog
         self.mods = mods
         self.fns = {f.norm: f for f in fns}
         self.track = track
         self.carry = carry
+        self.user_stop = user_stop
         self.entry = {n: frozenset() for n in self.fns}
         self.origin = {}
         for e in entries:
@@ -825,7 +826,7 @@ class Inter:
             if rounds > 2000:
                 raise RuntimeError("interprocedural dataflow did not converge")
             fn = self.fns[n]
-            fl = Flow(self.prog, self.mods, fn, self.track, entry=self.entry[n])
+            fl = Flow(self.prog, self.mods, fn, self.track, entry=self.entry[n], user_stop=self.user_stop)
             self.flows[n] = fl
             root = fl.self_name
             for b, t in fn.all_calls():
@@ -852,7 +853,7 @@ class Inter:
                     proj = frozenset(self._project(w, root, groot) for w in ws)
                     if self.carry:
                         proj = frozenset(
-                            frozenset(dict(list(self._project(w, root, groot)) + self.carry(dict(w))).items())
+                            frozenset(dict(list(self._project(w, root, groot)) + self.carry(dict(w), fn)).items())
                             for w in ws
                         )
                     self._merge(g.norm, proj, (n, b, t["span"]["line"]), work)
